@@ -446,7 +446,9 @@ def _hex(x):
 
 def load_generated(src, symbolic):
     """exec the generated source; -> (namespace, pseudo file name)"""
-    fname = "<ir2py-%s>" % hashlib.sha1(src.encode()).hexdigest()[:12]
+    # pseudo file name (never on disk; source served through linecache for symx.ifconv); shaped so that the
+    # function tracer lists the executed generated functions as ppci.lang.python.ir2py_generated:*
+    fname = "<generated-%s>/ppci/lang/python/ir2py_generated.py" % hashlib.sha1(src.encode()).hexdigest()[:12]
     linecache.cache[fname] = (len(src), None, src.splitlines(True), fname)
     ns = {"__name__": "irpy_generated"}
     if symbolic:
